@@ -35,6 +35,7 @@ type MSlot struct {
 	// ZeroFirst: the first element of a slice-typed result (flatten result,
 	// decorated group) is the zero value
 	ZeroFirst bool
+	Rep       bool // every element of a slice-typed result is the same value
 }
 
 type MLeaf struct {
@@ -291,7 +292,7 @@ func slotsOf(f *Fn, o *Opts, deco bool) []MSlot {
 			}
 			return
 		}
-		s := MSlot{Path: path, T: r.T, N: 1, Zero: r.Zero && !r.Slice && !r.Flatten, SlT: r.SlT, ZeroFirst: r.Zero && (r.Slice || r.Flatten) && r.N > 0}
+		s := MSlot{Path: path, T: r.T, N: 1, Zero: r.Zero && !r.Slice && !r.Flatten, SlT: r.SlT, ZeroFirst: r.Zero && (r.Slice || r.Flatten) && r.N > 0, Rep: r.Rep && !r.Zero && (r.Slice || r.Flatten)}
 		name, group, flatten := r.Name, r.Group, r.Flatten
 		if top {
 			name, group, flatten = optName, optGroup, optFlatten
